@@ -3,8 +3,9 @@ import BreezyVerif.Model.C01
 /-
 C01 driver.
 
-  commit <sel> <excl> <basis> <wt>      -> ok <ids> <tree> <wt ids> <missing ids> | E:PathsNotVersioned:<paths> | E:InconsistentDelta | E:fuel
-  from   <ids> <basis> <wt>             -> the same, for an explicit list of recorded ids
+  commit <strict|lax> <sel> <excl> <basis> <wt>      -> ok <ids> <tree> <wt ids> <missing ids> | E:PathsNotVersioned:<paths> | E:InconsistentDelta | E:fuel
+  from   <strict|lax> <ids> <basis> <wt> -> the same, for an explicit list of recorded ids
+  ids    <sel> <excl> <basis> <wt>      -> the ids of the change stream after exclusion | E:…
   git    <sel> <excl> <changes> <basis> <wt>  -> <gtree>
   fault  <stage|~> <revs> <tip|~> <new> -> <raised T|F> <revs> <tip|~> <basis|~> <inGroup T|F>
 
@@ -80,6 +81,7 @@ def showTree (t : Tree) : String :=
 def showErr : CErr → String
   | .pathsNotVersioned ps => "E:PathsNotVersioned:" ++ ",".intercalate (sortStrings (ps.map showPath))
   | .inconsistentDelta => "E:InconsistentDelta"
+  | .rootMissing => "E:RootMissing"
   | .fuel => "E:fuel"
 
 def showResult : Except CErr Result → String
@@ -140,19 +142,30 @@ def parseStage (s : String) : Option (Option Stage) :=
   | "postHook" => some (some .postHook)
   | _ => none
 
+def parseValidation (s : String) : Option Validation :=
+  if s == "strict" then some .strict else if s == "lax" then some .lax else none
+
 def showOptS : Option String → String
   | none => "~"
   | some s => s
 
 def handle : List String → String
-  | ["commit", sel, excl, basis, wt] =>
+  | ["commit", v, sel, excl, basis, wt] =>
+    match parseValidation v, parseSel sel, parsePaths excl, parseTree basis, parseWT wt with
+    | some v, some sel, some excl, some basis, some wt => showResult (commitModel v basis wt sel excl)
+    | _, _, _, _, _ => "bad-op"
+  | ["ids", sel, excl, basis, wt] =>
     match parseSel sel, parsePaths excl, parseTree basis, parseWT wt with
-    | some sel, some excl, some basis, some wt => showResult (commitModel basis wt sel excl)
+    | some sel, some excl, some basis, some wt =>
+      match reportedChanges basis wt (sel.map minSel) with
+      | .ok cs => joinWith "," (sortStrings (commitIds excl cs).eraseDups)
+      | .error (.pathsNotVersioned ps) => showErr (.pathsNotVersioned ps)
+      | .error .fuel => showErr .fuel
     | _, _, _, _ => "bad-op"
-  | ["from", is, basis, wt] =>
-    match parseIds is, parseTree basis, parseWT wt with
-    | some is, some basis, some wt => showResult (commitFrom basis wt is)
-    | _, _, _ => "bad-op"
+  | ["from", v, is, basis, wt] =>
+    match parseValidation v, parseIds is, parseTree basis, parseWT wt with
+    | some v, some is, some basis, some wt => showResult (commitFrom v basis wt is)
+    | _, _, _, _ => "bad-op"
   | ["git", sel, excl, cs, basis, wt] =>
     match parseSel sel, parsePaths excl, parseGChanges cs, parseGTree basis, parseGTree wt with
     | some sel, some excl, some cs, some basis, some wt => showGTree (gitCommitTree basis wt cs sel excl)
